@@ -67,14 +67,18 @@ class Points:
         """
         points_out = []
         space_out = Space({})
-        shape = points_l[0].shape
+        shape = None
         for points in points_l:
             if points.isempty:
                 continue
+            if shape is None:  # the first non-empty Points fix the batch shape
+                shape = points.shape
             assert space_out.keys().isdisjoint(points.space)
             assert points.shape == shape
             points_out.append(points._t)
             space_out = space_out * points.space
+        if shape is None:
+            return cls.empty()
         return cls(torch.cat(points_out, dim=-1), space_out)
 
     @classmethod
